@@ -102,6 +102,14 @@ M.contract('xtuml.tools.OrderedSet.discard', [('self', OSET), ('key', KEY)], ret
                            ('self.nodes', 'seq_without(old(self.nodes), old(self.idx[key])) if old(key in self.map) else old(self.nodes)'),
                            ('self.idx', 'arr_dec_above(old(self.idx), old(self.idx[key])) if old(key in self.map) else old(self.idx)')]})
 
+M.spec('''
+def distinct_seq(v):
+    return all(all(implies(i < j, v[i] is not v[j]) for j in range(0, len(v))) for i in range(0, len(v)))
+
+def all_new(v, s):
+    return all(x not in s for x in v)
+''')
+
 M.contract('xtuml.tools.OrderedSet.pop', [('self', OSET), ('last', BOOL, 'True')], returns=KEY,
            requires={'wf': 'wf(self)'},
            ensures={'wf': 'wf(self)',
@@ -124,6 +132,7 @@ M.contract('xtuml.tools.OrderedSet.__init__@seq', [('self', OSET), ('iterable', 
            ensures={'wf': 'wf(self)',
                     'all-arrivals-present': 'all(x in self.view for x in iterable)',
                     'nothing-else': 'all(x in iterable for x in self.view)',
+                    'distinct-elements-keep-their-arrival-order': 'implies(distinct_seq(iterable), len(self.view) == len(iterable) and all(self.view[j] is iterable[j] for j in range(0, len(iterable))))',
                     'ownership': 'foreign_cells_untouched(self)'},
            modifies=['self.end', 'self.map', 'self.view', 'self.nodes', 'self.idx', 'Cell.[0]', 'Cell.[1]', 'Cell.[2]', 'Cell.owner'],
            ghost={'list_literal_class': 'Cell',
@@ -169,9 +178,13 @@ M.contract('_collections_abc.MutableSet.__ior__@seq', [('self', OSET), ('it', Se
                     'old-elements-keep-their-places': 'len(self.view) >= len(old(self.view)) and all(self.view[j] is old(self.view)[j] for j in range(0, len(old(self.view))))',
                     'all-arrivals-present': 'all(x in self.view for x in it)',
                     'nothing-else': 'all(x in old(self.view) or x in it for x in self.view)',
+                    'distinct-new-arrivals-are-appended-in-arrival-order':
+                    'implies(distinct_seq(it) and all_new(it, old(self.view)), len(self.view) == len(old(self.view)) + len(it) and all(self.view[len(old(self.view)) + j] is it[j] for j in range(0, len(it))))',
                     'ownership': 'foreign_cells_untouched(self)'},
            modifies=REP,
            loops={0: Loop(inv={'wf': 'wf(self)',
+                               'distinct-new-arrivals-appended-so-far':
+                               'implies(distinct_seq(it) and all_new(it, old(self.view)), len(self.view) == len(old(self.view)) + _i and all(self.view[len(old(self.view)) + j] is it[j] for j in range(0, _i)))',
                                'old-elements-keep-their-places': 'len(self.view) >= len(old(self.view)) and all(self.view[j] is old(self.view)[j] for j in range(0, len(old(self.view))))',
                                'arrivals-so-far-present': 'all(_seq[j] in self.view for j in range(0, _i))',
                                'nothing-else': 'all(x in old(self.view) or any(_seq[j] is x for j in range(0, _i)) for x in self.view)',
